@@ -1171,7 +1171,7 @@ func loadParamBytes(input []byte, index int) ([]byte, error) {
 	}
 
 	start := dataOffset + 32
-	if start > uint64(len(input)) {
+	if start < dataOffset || start > uint64(len(input)) {
 		return nil, errors.New("invalid param length")
 	}
 
@@ -1181,7 +1181,7 @@ func loadParamBytes(input []byte, index int) ([]byte, error) {
 	}
 
 	end := start + dataLen
-	if end > uint64(len(input)) {
+	if end < start || end > uint64(len(input)) {
 		return nil, errors.New("invalid param length")
 	}
 
